@@ -1,0 +1,73 @@
+//go:build verif
+
+package bpmn
+
+// Thin exported wrappers around unexported engine internals, used only by the verification harness
+// (/verif/harness, built with -tags verif). Nothing here is compiled into normal builds.
+
+import (
+	"context"
+	"time"
+)
+
+// VerifDistribute calls distributeFlows with a waiting tokens and s outgoing flows and reports, per waiting
+// token, the half-open range of outgoing-flow indices it was handed ({-1,-1} = completeAction), and whether
+// every handed flow was marked unconditional.
+func VerifDistribute(a, s int) (ranges [][2]int, allUnconditional bool) {
+	awaiting := make([]chan IAction, a)
+	for i := range awaiting {
+		awaiting[i] = make(chan IAction, 1)
+	}
+	flows := make([]*SequenceFlow, s)
+	for i := range flows {
+		flows[i] = &SequenceFlow{}
+	}
+	distributeFlows(awaiting, flows)
+	allUnconditional = true
+	for i := range awaiting {
+		select {
+		case act := <-awaiting[i]:
+			switch x := act.(type) {
+			case flowAction:
+				lo := -1
+				for k := range flows {
+					if len(x.sequenceFlows) > 0 && flows[k] == x.sequenceFlows[0] {
+						lo = k
+					}
+				}
+				ranges = append(ranges, [2]int{lo, lo + len(x.sequenceFlows)})
+				if len(x.unconditionalFlows) != len(x.sequenceFlows) {
+					allUnconditional = false
+				}
+				for k, u := range x.unconditionalFlows {
+					if u != k {
+						allUnconditional = false
+					}
+				}
+			default:
+				ranges = append(ranges, [2]int{-1, -1})
+			}
+		default:
+			ranges = append(ranges, [2]int{-2, -2}) // no reply at all
+		}
+	}
+	return
+}
+
+// VerifTaskTrace exposes a task trace built exactly as genericTask builds it, together with the channel the
+// task goroutine reads the effective answer from.
+type VerifTaskTrace struct {
+	Trace TaskTrace
+	Out   <-chan DoResponse
+}
+
+func VerifNewTaskTrace(ctx context.Context, timeout time.Duration) VerifTaskTrace {
+	at := newTaskTraceBuilder().Context(ctx).Timeout(timeout).Build()
+	return VerifTaskTrace{Trace: at, Out: at.out()}
+}
+
+// VerifTaskTraceCaps reports the channel capacities of a task trace (forward, response, done).
+func VerifTaskTraceCaps() (forward, response, done int) {
+	t := newTaskTrace()
+	return cap(t.forward), cap(t.response), cap(t.done)
+}
